@@ -3,9 +3,11 @@
 E: TLC checks Schema.tla: mandatory keys are members of their key set, fixed keys are distinct, every base workflow
    is typed by the schema, every mapping / key of the schema occurs in a base.
 G: TLC enumerates DocMutation (Props = {"C13"}): every mapping node of every base x
-     InsertKey (foreign key first / middle / last; closed key sets only),
+     InsertKey (foreign key - an ordinary word or the unquoted YAML merge key `<<` - first / middle / last; closed
+                key sets only),
      DupKey (every entry, key in the same / UPPER / Mixed case, value copied, directly behind the entry or last),
-     DropKey (every key whose removal leaves no mandatory alternative satisfied),
+     DropKey (every key whose removal leaves no mandatory alternative satisfied; also combined with a foreign key,
+              and every pair of mandatory keys dropped at once - each of the two must be reported),
    each once on the clean base and once with *sensors* (a malformed placeholder in the first template scalar of
    every entry of that mapping, so that the sibling keys have diagnostics of their own).  Prediction per vector:
    a syntax-check diagnostic at the new key (for `schedule` items at the item; for a missing key at the place the
@@ -49,6 +51,12 @@ def judge(v, mo, ro):
         if not miss:
             problems.append(('report', 'the missing mandatory key %r is not reported (syntax-check diagnostics: %s)'
                              % (v['key'], [doclib.show(d) for d in syn] or 'none')))
+        elif v['exp'].get('named') and len(miss) < len(v['exp']['named']) and \
+                [k for k in v['exp']['named'] if not any('"%s"' % k in d['msg'] for d in miss)]:
+            # several mandatory keys dropped at once: each must be reported (one diagnostic naming both is fine)
+            unnamed = [k for k in v['exp']['named'] if not any('"%s"' % k in d['msg'] for d in miss)]
+            problems.append(('report', 'mandatory keys %s dropped together: %s not reported (only: %s)'
+                             % (v['exp']['named'], unnamed, [doclib.show(d) for d in miss])))
         elif not any(doclib.at_node(d, ident, role) for d in miss):
             drift.append('missing key %r of %s reported, but not at the %s' % (v['key'], doclib.site_str(v['h']['site']), v['exp']['at']))
         return problems, drift
@@ -107,7 +115,7 @@ def run(ck, tier):
     if unclean:
         raise Inconclusive('base workflow does not lint clean: ' + unclean[0])
     vecs = doclib.generate(ck, 'DocMutation_c13.cfg', 'DocMutation C13: every mapping of every base x InsertKey/DupKey/DropKey x sensors')
-    vecs.sort(key=lambda v: json.dumps([v['h']['b'], v['h']['path'], v['h']['mut'], v['where'], v['key'], v['case'], v['h']['sensors']]))
+    vecs.sort(key=lambda v: json.dumps([v['h']['b'], v['h']['path'], v['h']['mut'], v['where'], v['key'], v.get('key2', ''), v['case'], v['h']['sensors']]))
     nl = len(doclib.LAYOUTS)
     runs = doclib.Runs()
     plan = []
